@@ -521,7 +521,8 @@ def fast_decisions(ck, P, R="SIB/fast~fast_back"):
         # lossless conversions (`usize::from(dist)` for `dist as usize`) are not part of a decision
         return (x[0], tuple(c for c in x[1] if c.split("::")[-1] not in ("from", "into", "try_from", "unwrap")), x[3], x[4])
     kb = {key(x) for x in cb}
-    want = sorted((x for x in ca if not windowish(x)), key=str)
+    # (a comparison of which nothing but a conversion remains carries no information of its own)
+    want = sorted((x for x in ca if not windowish(x) and (key(x)[1] or key(x)[2])), key=str)
     missing = [x for x in want if key(x) not in kb]
     ck.decide(not missing, R, "decisions", "every window-independent decision of the fast loop has a counterpart (%d)" % len(want),
               "inflate_fast_back no longer makes the decision(s) %s of inflate's fast loop: inflateBack decodes a match or a code class "
